@@ -878,7 +878,7 @@ func main() {
 	}
 
 	// ---- target files with comments at known offsets
-	var tbs [7]strings.Builder
+	var tbs [8]strings.Builder
 	var comments []cm
 	cur := 0
 	addc := func(prefix, c, suffix string) {
@@ -1163,6 +1163,27 @@ func main() {
 	tbs[6].WriteString("}\n")
 	addc("", "// pre GL2 mid GL2 post", "")
 
+	// file 7: a file with //line directives (generated code: goyacc, cgo, templates) -- one in front of the package clause, one
+	// further down; the file they name EXISTS next to the target and has other bytes. The texts are those of the file that is
+	// analysed, not of the file its positions are attributed to.
+	cur = 7
+	addc("", "//line other.y:1", "\n")
+	tbs[7].WriteString("package target\n\n")
+	addc("", "// fam1:a-bb-é", "\n")
+	tbs[7].WriteString("func ld() {\n")
+	for i := 0; i < 6; i++ {
+		body := fams[rng.Intn(len(fams))] + ":" + toks[rng.Intn(len(toks))] + "-" + toks[rng.Intn(len(toks))] + "-" + toks[rng.Intn(len(toks))]
+		addc("\t_ = \"日本\" ", "// see "+body, "\n")
+	}
+	addc("", "//line other.y:100", "\n")
+	for i := 0; i < 30; i++ {
+		if c := classComments[rng.Intn(len(classComments))]; !strings.Contains(c, "\n") {
+			addc("\t", c, "\n")
+		}
+	}
+	tbs[7].WriteString("}\n")
+	addc("", "// GL1: drop this before the release", "\n")
+
 	fset := token.NewFileSet()
 	var targets []*target
 	for i := range tbs {
@@ -1174,6 +1195,12 @@ func main() {
 		if err := os.MkdirAll(filepath.Dir(path), 0o755); err != nil {
 			fmt.Fprintln(os.Stderr, "target:", err)
 			os.Exit(3)
+		}
+		if i == 7 {
+			if err := os.WriteFile(filepath.Join(filepath.Dir(path), "other.y"), []byte(strings.Repeat("%% not the file that is analysed\n", len(src)/30+2)), 0o644); err != nil {
+				fmt.Fprintln(os.Stderr, "target:", err)
+				os.Exit(3)
+			}
 		}
 		if i == inMemoryFile {
 			os.Remove(path)
@@ -1210,7 +1237,7 @@ func main() {
 	for fi, t := range targets {
 		for _, cg := range t.file.Comments {
 			for _, c := range cg.List {
-				texts[key{fi, fset.Position(c.Pos()).Offset}] = c.Text
+				texts[key{fi, fset.PositionFor(c.Pos(), false).Offset}] = c.Text
 				ncom++
 			}
 		}
@@ -1248,7 +1275,7 @@ func main() {
 		srcs = append(srcs, t.src)
 		bases = append(bases, fset.File(t.file.Pos()).Base())
 	}
-	orders := map[int][]int{0: {0, 1, 2, 3, 4, 5, 6}, 15: {0, 2, 3, 1, 4, 6, 5}}
+	orders := map[int][]int{0: {0, 1, 2, 3, 4, 5, 6, 7}, 15: {0, 2, 3, 1, 4, 6, 5, 7}}
 	var pathOf []int
 	for i := range targets {
 		pathOf = append(pathOf, i)
@@ -1306,15 +1333,15 @@ func main() {
 						if data.Node == nil {
 							r.NilNode = true
 						} else {
-							p := fset.Position(data.Node.Pos())
+							p := fset.PositionFor(data.Node.Pos(), false)
 							r.file = p.Filename
 							r.Pos = p.Offset
-							r.End = fset.Position(data.Node.End()).Offset
+							r.End = fset.PositionFor(data.Node.End(), false).Offset
 						}
 						if data.Suggestion != nil {
 							r.HasSugg = true
-							r.SuggFrom = fset.Position(data.Suggestion.From).Offset
-							r.SuggTo = fset.Position(data.Suggestion.To).Offset
+							r.SuggFrom = fset.PositionFor(data.Suggestion.From, false).Offset
+							r.SuggTo = fset.PositionFor(data.Suggestion.To, false).Offset
 							r.Sugg = string(data.Suggestion.Replacement)
 						}
 						reports = append(reports, r)
